@@ -211,9 +211,14 @@ def tick_of(meta):
 def monitor(ops, outs):
     """Evaluate the clauses of C17 on the observations `outs` of transcript `ops`.
     Returns list of (clause, detail, index) failures and a dict of evaluation counts."""
-    fails, n = [], {"merge": 0, "merge_clean": 0, "idempotent": 0, "restore": 0, "import": 0, "sync": 0}
+    fails, n = [], {"merge": 0, "merge_clean": 0, "idempotent": 0, "restore": 0, "import": 0, "sync": 0, "sync_snapshots": 0}
+    snapf = {}     # (installation, dictionary) -> (file holding a copy of its snapshot in the sync directory, op index)
     for j, op in enumerate(ops[:len(outs)]):
         t = op.split(" ")
+        if j > 0:
+            u = ops[j - 1].split(" ")
+            if u[0] in ("backup", "sync") and len(u) == 4 and outs[j - 1].startswith("ok"):
+                snapf[(u[1], u[2])] = (u[3], j - 1)
         if j + 1 >= len(outs):
             break
         if t[0] in ("merge", "pmerge") and outs[j] == "ok" and 0 < j < len(ops) - 1:
@@ -305,6 +310,30 @@ def monitor(ops, outs):
             tb, ta2 = tick_of(before["meta"]), tick_of(after["meta"])
             if tb is not None and ta2 is not None and ta2 < tb:
                 fails.append(("tick-max", "Synchronize lowered the tick %d -> %d" % (tb, ta2), j))
+            # every snapshot of this dictionary in the sync directory (the peers' and the installation's own) is merged:
+            # its entries are there afterwards, none with a smaller magnitude
+            m = re.search(r"order=(\S+)", outs[j])
+            peers = [] if not m or m.group(1) == "-" else m.group(1).split(",")
+            if all(v[2] for v in before["data"].values()):      # (whatever Synchronize returns: a clean snapshot merges)
+                for p in peers:
+                    if (p, nme) not in snapf:
+                        continue
+                    f, kw = snapf[(p, nme)]
+                    kc = latest(ops, outs, j, lambda u: u[0] == "cat" and u[1] == f)
+                    if kc is None or kc < kw or any(writes_file(o, f) for o in ops[kw + 1:j]):
+                        continue
+                    rows = parse_cat(outs[kc])
+                    snap = clean_snapshot(rows) if rows is not None else None
+                    if not snap or db_name_of(snap[0]) != nme:
+                        continue
+                    n["sync_snapshots"] += 1
+                    for k, c, tk in snap[1]:
+                        if k not in after["data"]:
+                            fails.append(("keys-kept", "entry %r of the snapshot of %s in the sync directory is missing after "
+                                          "Synchronize" % (k, p), j))
+                        elif after["data"][k][2] and c != INT_MIN and abs(after["data"][k][0]) < abs(c):
+                            fails.append(("abs-monotone", "entry %r: the snapshot of %s has commits %d, after Synchronize %d" %
+                                          (k, p, c, after["data"][k][0]), j))
         elif t[0] == "restore" and outs[j] == "ok" and 0 < j < len(ops) - 1:
             f, i, nme = t[1], t[2], t[3]
             if ops[j - 1] != "dump %s %s" % (i, nme) or ops[j + 1] != ops[j - 1] or outs[j - 1] != "none":
@@ -465,6 +494,32 @@ def scenario_sync(rng, sid):
             ops += ["dump %s %s" % (i, nme), "sync %s %s %s" % (i, nme, f), "dump %s %s" % (i, nme), "cat %s" % f]
             if rng.random() < 0.3:
                 ops.append("put %s %s %s %s" % (i, nme, hx(rng.choice(pool)), hx(gen_value(rng, 2000))))
+            elif rng.random() < 0.25:
+                ops.append("drop %s %s" % (i, nme))     # the dictionary is lost; the next Synchronize finds the snapshots
+    return ops
+
+
+def scenario_lost(rng, sid):
+    """an installation loses its dictionary after a Synchronize; the next Synchronize brings it back from the snapshots in the
+    sync directory — its own, and a peer's when there is one"""
+    a, b = sid + "A", sid + "B"
+    nme = rng.choice(["d", "luna_pinyin"])
+    pool = list({gen_key(rng) for _ in range(rng.choice([3, 5, 8]))})
+    ops = []
+    gen_db(rng, a, nme, pool[:max(1, len(pool) * 2 // 3)], ops)
+    two = rng.random() < 0.5
+    if two:
+        gen_db(rng, b, nme, pool[len(pool) // 3:], ops)
+    r = 0
+    for i in ([a, b, a] if two else [a]):
+        f = "%ssy%s%d" % (sid, i[-1], r)
+        ops += ["dump %s %s" % (i, nme), "sync %s %s %s" % (i, nme, f), "dump %s %s" % (i, nme), "cat %s" % f]
+        r += 1
+    ops.append("drop %s %s" % (a, nme))
+    for i in ([a, b] if two else [a, a]):
+        f = "%ssy%s%d" % (sid, i[-1], r)
+        ops += ["dump %s %s" % (i, nme), "sync %s %s %s" % (i, nme, f), "dump %s %s" % (i, nme), "cat %s" % f]
+        r += 1
     return ops
 
 
@@ -759,6 +814,8 @@ def run(c):
         scen.append(("random%d" % k, scenario_random(c.rng, "r%d" % k)))
     for k in range(n_sync):
         scen.append(("sync%d" % k, scenario_sync(c.rng, "y%d_" % k)))
+    for k in range(max(4, n_sync // 3)):
+        scen.append(("lost%d" % k, scenario_lost(c.rng, "z%d_" % k)))
     # the scenarios are independent worlds: run them in parallel shards (the work is fsync-bound)
     from concurrent.futures import ThreadPoolExecutor
     K = 2 if quick else 6
@@ -778,7 +835,7 @@ def run(c):
     t_run = time.time() - t0
     n_ops = sum(len(r[0]) for r in results)
     stats = {"dee_compared": 0, "dee_inexact": 0}
-    counts = {"merge": 0, "merge_clean": 0, "idempotent": 0, "restore": 0, "import": 0, "sync": 0}
+    counts = {"merge": 0, "merge_clean": 0, "idempotent": 0, "restore": 0, "import": 0, "sync": 0, "sync_snapshots": 0}
     crashes, recs = [], []
     k_fail, o_fail, distinct, kinds = [], [], set(), {}
     for sops, spans, impl, model, rc, raw in results:
